@@ -143,6 +143,7 @@ def run(ck):
     ck.record('C08.R2', 'AssignedMsm:encoder~constrainer', bool(fa) and fa == fc, f'both cover {sorted(fa)}',
               f'AssignedMsm::in_circuit_as_public_input encodes {sorted(fa)} but constrain_as_public_input constrains {sorted(fc)}', hirq.fn_loc(ca))
     r3_counting(ck, w)
+    r4_canonical(ck, w)
 
 
 def r3_counting(ck, w):
@@ -186,3 +187,32 @@ def r3_counting(ck, w):
     lit = hirq.struct_lits(sv['body'], 'midnight_zk_stdlib::MidnightVK')
     ok = bool(lit) and any(fname == 'nb_public_inputs' for fname, _ in lit[0]['fs']) and any(x.get('k') == 'field' and x['n'] == 'nb_public_inputs' for x in walk(sv['body']) if x is not lit[0])
     ck.record('C08.R3', 'setup_vk:stores-count', ok, 'MidnightVK.nb_public_inputs := the circuit\'s counter', 'setup_vk does not store the counted public inputs in the key', hirq.fn_loc(sv))
+
+
+def r4_canonical(ck, w):
+    """exposure functions keep the calls they make unconditionally on the reference tree (canonicalisation before exposure, delegation to the counting primitive)"""
+    import re
+    from . import dprops
+    ck.rule('C08.R4', 'canonical form before exposure: every (as|constrain_as|assign_as)[_committed]_public_input function still reaches, on every success path, the '
+                      'call it made unconditionally on the reference tree (rules/mustcall.json): normalisation of types with several representations of one value '
+                      '(emulated field elements, big integers) and delegation to the primitive that binds and counts the instance cell')
+    pat = re.compile(r'::(as|constrain_as|assign_as|constrain_\w+_as)(_committed)?_public_input(_with_committed_scalars)?$')
+    rows = [r for r in dprops.load_rules('mustcall.json') if pat.search(r['fn'])]
+    n = 0
+    for r in rows:
+        b = w.mir_body_x(r['fn'], required=False)
+        if b is None:
+            ck.bad('C08.R4', f'{r["fn"]}|{short(r["must_call"])}:anchor', f'function {r["fn"]} of the must-call table not found (renamed/removed: needs triage)')
+            continue
+        n += 1
+        g = r['must_call']
+        ok, _ = mc.must_call(b, lambda c, t: c == g)
+        if not ok:
+            def via(c, t):
+                bb = w.mir_index().get(c)
+                return bb is not None and mc.must_call(bb, lambda c2, t2: c2 == g)[0]
+            ok, _ = mc.must_call(b, lambda c, t: c == g or via(c, t))
+        ck.record('C08.R4', f'{r["fn"]}|{short(g)}', ok, f'calls {short(g)} on every success path',
+                  f'{r["fn"]} no longer reaches {g} on every success path: the value is exposed without the canonicalisation / counting step, so the cells bound to the '
+                  f'instance column need not be the off-circuit encoding of the value', reach.loc(b))
+    ck.floor('C08.R4', 'exposure must-call pairs', n, 20)
